@@ -253,6 +253,9 @@ func parseRaces(log string) map[int][]string {
 			i = j
 		}
 		sort.Strings(sites)
+		if len(sites) == 0 {
+			sites = []string{"(no frame of the repository in the report)"}
+		}
 		out[cur] = append(out[cur], strings.Join(sites, " <-> "))
 	}
 	return out
